@@ -476,3 +476,112 @@ def check_lp_table(ck, P, rid):
         ck.holds(rid, inst, frees[0].where, "shifted back by lid_node_first before it is released", cfg)
     else:
         ck.violated(rid, inst, frees[0].where, "the pointer released is not the one that was allocated (it is still shifted by lid_node_first)", cfg)
+
+
+def check_ownership_tiling(ck, P, rid):
+    """F15: lp_global_init and the head of lp_init are interpreted for small configurations (1..12 LPs, 1..4 ranks, 1..4 threads, every rank
+    and thread id).  The ranges [lid_node_first, +n_lps_node) of the ranks tile 0..lps-1, the ranges [lid_thread_first, lid_thread_end) of a
+    rank's threads tile the rank's range, and the routing macros send every identifier of a range to the rank / thread that owns it."""
+    from . import interp, ceval
+    cfg = P.config
+    gi, li = P.fn("lp_global_init"), P.fn("lp_init")
+    inst = "tiling@lp_init"
+    loops = [n for n in li.walk() if n.k == "ForStmt"]
+    if len(loops) != 1:
+        ck.inconclusive(rid, inst, li.where, "the loop over the thread's LPs was not recognised", cfg)
+        return
+    stop = {x.id for x in loops[0].walk()}
+    tops = {}
+    for macro in ("lid_to_nid", "lid_to_rid"):
+        for g in P.all_functions():
+            for t in X.expansions(g.root, macro):
+                a = macro_args(t, macro)
+                if a and X.strip(a[0]).k in ("DeclRefExpr", "MemberExpr") and macro not in tops:
+                    tops[macro] = (t, X.show(X.strip(a[0])))
+    if len(tops) != 2:
+        ck.inconclusive(rid, inst, li.where, "no expansion of the routing macros with a plain argument was found", cfg)
+        return
+    stubs = {"mm_alloc": lambda a, e: 4096, "logger": lambda a, e: 0, "vlogger": lambda a, e: 0}
+    bad = None
+    n_cfg = 0
+    for lps in range(1, 13):
+        for nn in range(1, 5):
+            if nn > lps:
+                continue
+            nxt = 0
+            for nid in range(nn):
+                for thr in (1, 2, 3, 4):
+                    env = {"nid": nid, "n_nodes": nn, "global_config.lps": lps, "global_config.n_threads": thr}
+                    o1 = [o for o in interp.Interp(gi, stubs=stubs, max_visits=64).run(env) if o.how == "exit"]
+                    if len(o1) != 1 or not o1[0].decided:
+                        ck.inconclusive(rid, inst, gi.where, "lp_global_init could not be evaluated for %d LPs on %d ranks" % (lps, nn), cfg)
+                        return
+                    e1 = o1[0].env
+                    first, cnt, T = e1.get("lid_node_first"), e1.get("n_lps_node"), e1.get("global_config.n_threads")
+                    if first is None or cnt is None or not T:
+                        ck.inconclusive(rid, inst, gi.where, "lp_global_init leaves the rank's range undetermined", cfg)
+                        return
+                    if thr == 1:
+                        if first != nxt and bad is None:
+                            bad = "with %d LPs on %d ranks, rank %d hosts [%d, %d) but the previous rank's range ends at %d" % (lps, nn, nid, first, first + cnt, nxt)
+                        nxt = first + cnt
+                        if nid == nn - 1 and nxt != lps and bad is None:
+                            bad = "with %d LPs on %d ranks the ranges of the ranks end at %d" % (lps, nn, nxt)
+                    tnext = first
+                    for r in range(T):
+                        env2 = dict(e1)
+                        env2["rid"] = r
+                        o2 = [o for o in interp.Interp(li, stubs=stubs, max_visits=64).run(env2, stop=stop)]
+                        if len(o2) != 1 or o2[0].how != "stop" or not o2[0].decided:
+                            ck.inconclusive(rid, inst, li.where, "the head of lp_init could not be evaluated (%d LPs, %d ranks, %d threads)" % (lps, nn, T), cfg)
+                            return
+                        tf, te = o2[0].env.get("lid_thread_first"), o2[0].env.get("lid_thread_end")
+                        n_cfg += 1
+                        if tf is None or te is None:
+                            ck.inconclusive(rid, inst, li.where, "lp_init leaves the thread's range undetermined", cfg)
+                            return
+                        if (tf != tnext or te < tf) and bad is None:
+                            bad = "with %d LPs on %d ranks and %d threads, thread %d of rank %d owns [%d, %d) but the range of the rank's previous thread ends at %d: an LP is initialised and run by two threads, or by none" % (lps, nn, T, r, nid, tf, te, tnext)
+                        tnext = te
+                        for lid in range(tf, te):
+                            for macro, want in (("lid_to_nid", nid), ("lid_to_rid", r)):
+                                top, arg = tops[macro]
+                                envm = dict(e1)
+                                envm[arg] = lid
+                                v = ceval.ev(top, envm)
+                                if v is None:
+                                    ck.inconclusive(rid, inst, top.where, "%s is not evaluable" % macro, cfg)
+                                    return
+                                if v != want and bad is None:
+                                    bad = "with %d LPs on %d ranks and %d threads, LP %d is initialised by thread %d of rank %d but %s sends its events to %d" % (lps, nn, T, lid, r, nid, macro, v)
+                    if tnext != first + cnt and bad is None:
+                        bad = "with %d LPs on %d ranks and %d threads the ranges of rank %d's threads end at %d, the rank's range at %d" % (lps, nn, T, nid, tnext, first + cnt)
+    if bad:
+        ck.violated(rid, inst, li.where, bad, cfg)
+    else:
+        ck.holds(rid, inst, li.where, "%d (LPs, ranks, rank, threads, thread) combinations: the ranges tile the identifier space and agree with the routing macros" % n_cfg, cfg)
+
+
+def check_routing_width(ck, P, rid):
+    """The product in a routing macro is formed in the full width of an LP identifier at every expansion: a cast that narrows the
+    offset before the multiplication makes (offset * parts) wrap for large identifier counts."""
+    cfg = P.config
+    n = 0
+    bad = {}
+    for macro in ("lid_to_nid", "lid_to_rid"):
+        for g in P.all_functions():
+            for t in X.expansions(g.root, macro):
+                muls = [x for x in t.walk() if x.k == "BinaryOperator" and x.op == "*" and macro in x.macros]
+                for m in muls:
+                    n += 1
+                    ti = m.d.get("ti")
+                    if ti and ti[0] < 64 and macro not in bad:
+                        bad[macro] = (m, ti[0], g)
+    for macro in ("lid_to_nid", "lid_to_rid"):
+        inst = "width:%s" % macro
+        if macro in bad:
+            m, w, g = bad[macro]
+            ck.violated(rid, inst, m.where, "in %s the product `%s` is computed in %d bits: for (identifier offset x partitions) >= 2^%d it wraps and the identifier is routed to a thread / rank that does not own it (expansion in %s)" % (macro, X.show(m)[:60], w, w, g.name), cfg)
+        else:
+            ck.holds(rid, inst, P.fn("lp_init").where, "the product is 64 bits wide at every expansion", cfg)
+    ck.expect(rid, n, 6, "products inside routing macro expansions")
